@@ -246,6 +246,6 @@ def is_keyword(text):
 def filter_parameters_dict(parameters):
     parameters = dict(parameters)
     for name in list(parameters.keys()):
-        if not is_keyword(name):
+        if not isinstance(name, str) or not is_keyword(name):
             del parameters[name]
     return parameters
